@@ -129,9 +129,21 @@ def prepare_globals(record):
     random.seed(s >> 16)
     debugging.reset_gv_debug(bool(record.get('debug', True)))
     if not record.get('keep_caches', False):
-        reward_functions.dijkstra.cache_clear()
-        raytracing.cached_compute_rays.cache_clear()
-        raytracing.cached_compute_rays_fancy.cache_clear()
+        clear_caches()
+
+
+def clear_caches():
+    """clear every memo cache the library exposes (robust to a cache being refactored away)"""
+    from gym_gridverse.envs import reward_functions
+    from gym_gridverse.utils import raytracing
+
+    n = 0
+    for owner, name in ((reward_functions, 'dijkstra'), (raytracing, 'cached_compute_rays'), (raytracing, 'cached_compute_rays_fancy')):
+        f = getattr(getattr(owner, name, None), 'cache_clear', None)
+        if f is not None:
+            f()
+            n += 1
+    return n
 
 
 def load(prop):
@@ -167,8 +179,44 @@ def execute(mod, record):
 # ------------------------------------------------------------------ workers
 
 
+def _in_fork(fn, *args):
+    """run fn(*args) in a forked child of this (pristine) process; returns its pickled result"""
+    import pickle
+
+    rfd, wfd = os.pipe()
+    pid = os.fork()
+    if pid == 0:
+        code = 0
+        try:
+            os.close(rfd)
+            try:
+                out = fn(*args)
+            except Exception:  # noqa: BLE001
+                out = {'error': traceback.format_exc()}
+            with os.fdopen(wfd, 'wb') as f:
+                pickle.dump(out, f, protocol=pickle.HIGHEST_PROTOCOL)
+        except BaseException:  # noqa: BLE001
+            code = 1
+        finally:
+            os._exit(code)
+    os.close(wfd)
+    with os.fdopen(rfd, 'rb') as f:
+        data = f.read()
+    _, status = os.waitpid(pid, 0)
+    if not data:
+        return {'error': f'forked child produced no result (status {status})'}
+    return pickle.loads(data)
+
+
 def _chunk(prop, seed, tier, indices):
-    faulthandler.dump_traceback_later(600, exit=True)
+    """every chunk runs in a fresh fork of the worker, which itself never executes a run: the
+    system under test therefore starts each chunk from pristine process state, and a violation in
+    run j of a chunk is a pure function of the chunk's runs up to j (the `prelude`)."""
+    return _in_fork(_chunk_body, prop, seed, tier, indices)
+
+
+def _chunk_body(prop, seed, tier, indices):
+    faulthandler.dump_traceback_later(900, exit=True)
     try:
         mod = load(prop)
         out = {
@@ -185,6 +233,7 @@ def _chunk(prop, seed, tier, indices):
             'error': None,
         }
         seen = set()
+        done = []
         for i in indices:
             record = mod.generate(seed, i, tier)
             ctx = execute(mod, record)
@@ -199,9 +248,10 @@ def _chunk(prop, seed, tier, indices):
             for v in ctx.violations:
                 if vclass(v) not in seen:
                     seen.add(vclass(v))
-                    out['viol'].append((record, v))
+                    out['viol'].append((record, v, list(done)))
             if ctx.sample is not None and len(out['samples']) < 1:
                 out['samples'].append(ctx.sample)
+            done.append(i)
         return out
     except Exception:  # noqa: BLE001
         return {'error': traceback.format_exc()}
@@ -220,7 +270,13 @@ def _opkind(o):
 # ------------------------------------------------------------------ minimisation
 
 
-def reproduces(mod, record, cls):
+def _reproduce_body(prop, record, cls, prelude):
+    mod = load(prop)
+    for (sd, i, tier) in prelude:
+        try:
+            execute(mod, mod.generate(sd, i, tier))
+        except RunTimeout:
+            pass
     try:
         ctx = execute(mod, record)
     except RunTimeout:
@@ -231,18 +287,65 @@ def reproduces(mod, record, cls):
     return None
 
 
-def minimise(mod, record, v, budget_s=90, max_exec=600):
-    """ddmin over ops, then module-specific structural simplification; same violation class"""
+def reproduces(mod, record, cls, prelude=()):
+    """execute (prelude runs, then) the record from pristine process state, in a forked child"""
+    out = _in_fork(_reproduce_body, record['property'], record, cls, list(prelude))
+    if isinstance(out, dict) and out.get('error') and 'monitor' not in out:
+        raise HarnessError(out['error'])
+    return out
+
+
+def ddmin(items, test, alive):
+    """delta debugging: smallest sub-list of items for which test(sub) holds (test(items) assumed)"""
+    n = 2
+    while len(items) >= 2 and alive():
+        size = max(1, len(items) // n)
+        reduced = False
+        for start in range(0, len(items), size):
+            cand = items[:start] + items[start + size:]
+            if test(cand):
+                items = cand
+                n = max(n - 1, 2)
+                reduced = True
+                break
+        if not reduced:
+            if size == 1:
+                break
+            n = min(len(items), n * 2)
+    if len(items) == 1 and alive() and test([]):
+        items = []
+    return items
+
+
+def minimise(mod, record, v, prelude_idx=(), budget_s=120, max_exec=700):
+    """shrink (prelude runs, ops, structure) while the same violation class recurs from pristine
+    process state.  Returns (record, violation, prelude, executions) or None if not reproducible."""
     cls = vclass(v)
     t0 = time.time()
     n_exec = [0]
+    alive = lambda: time.time() - t0 < budget_s and n_exec[0] < max_exec  # noqa: E731
     best = [record, v]
+    full_prelude = [(record['seed'], i, record['tier']) for i in prelude_idx]
+
+    def attempt(rec, prelude):
+        n_exec[0] += 1
+        return reproduces(mod, rec, cls, prelude)
+
+    prelude = []
+    v0 = attempt(record, [])
+    if v0 is None:
+        if not full_prelude:
+            return None
+        v0 = attempt(record, full_prelude)
+        if v0 is None:
+            return None
+        prelude = ddmin(full_prelude, lambda p: alive() and attempt(record, p) is not None, alive)
+    best[1] = v0
 
     def test(rec):
-        if time.time() - t0 > budget_s or n_exec[0] >= max_exec:
+        if not alive():
             return False
-        n_exec[0] += 1
-        vv = reproduces(mod, rec, cls)
+        vv = attempt(rec, prelude)
         if vv is not None:
             best[0], best[1] = rec, vv
             return True
@@ -253,39 +356,25 @@ def minimise(mod, record, v, budget_s=90, max_exec=600):
         r['ops'] = ops
         return r
 
-    # 0. cut everything after the violating op
     ops = list(best[0].get('ops', []))
     k = best[1].get('op_index', -1)
     if 0 <= k < len(ops) - 1:
         test(with_ops(best[0], ops[: k + 1]))
-    # 1. ddmin
     ops = list(best[0].get('ops', []))
-    n = 2
-    while len(ops) >= 2 and time.time() - t0 < budget_s and n_exec[0] < max_exec:
-        size = max(1, len(ops) // n)
-        reduced = False
-        for start in range(0, len(ops), size):
-            cand = ops[:start] + ops[start + size :]
-            if cand and test(with_ops(best[0], cand)):
-                ops = cand
-                n = max(n - 1, 2)
-                reduced = True
-                break
-        if not reduced:
-            if size == 1:
-                break
-            n = min(len(ops), n * 2)
-    # 2. structural simplification offered by the module
+    if len(ops) >= 2:
+        ddmin(ops, lambda cand: bool(cand) and test(with_ops(best[0], cand)), alive)
     simp = getattr(mod, 'simplify', None)
     if simp is not None:
         progress = True
-        while progress and time.time() - t0 < budget_s and n_exec[0] < max_exec:
+        while progress and alive():
             progress = False
             for cand in simp(best[0]):
+                if not alive():
+                    break
                 if test(cand):
                     progress = True
                     break
-    return best[0], best[1], n_exec[0]
+    return best[0], best[1], prelude, n_exec[0]
 
 
 # ------------------------------------------------------------------ known findings
@@ -315,7 +404,7 @@ def match_known(prop, sig):
 # ------------------------------------------------------------------ replay
 
 
-def write_replay(record, v, n_exec, orig_len):
+def write_replay(record, v, n_exec, orig_len, prelude=()):
     os.makedirs(os.path.join(OUT, 'replays'), exist_ok=True)
     name = f"{record['property']}-{record['seed']}-{record['run']}-{hashlib.sha256(vsig(v).encode()).hexdigest()[:6]}.json"
     path = os.path.join(OUT, 'replays', name)
@@ -323,6 +412,7 @@ def write_replay(record, v, n_exec, orig_len):
         json.dump(
             {
                 'record': record,
+                'prelude': [list(p) for p in prelude],
                 'violation': v,
                 'sig': vsig(v),
                 'minimisation': {'executions': n_exec, 'ops_before': orig_len, 'ops_after': len(record.get('ops', []))},
@@ -339,6 +429,12 @@ def replay(path):
     data = json.load(open(path))
     record, v = data['record'], data['violation']
     mod = load(record['property'])
+    for (sd, i, tier) in data.get('prelude', []):
+        # earlier runs of the same chunk that put the process into the state the violation needs
+        try:
+            execute(mod, mod.generate(sd, i, tier))
+        except RunTimeout:
+            pass
     ctx = execute(mod, record)
     for vv in ctx.violations:
         if vclass(vv) == vclass(v):
@@ -467,14 +563,18 @@ def run_check(prop, tier, seed=None, runs=None, wall=None, workers=None, chunk=N
 
     # ---- violations: group by class, minimise, replay in a fresh interpreter, match known
     byclass = collections.OrderedDict()
-    for record, v in sorted(agg['viol'], key=lambda rv: (rv[0]['run'], rv[1]['op_index'])):
-        byclass.setdefault(vclass(v), (record, v))
+    for record, v, pre in sorted(agg['viol'], key=lambda rv: (rv[0]['run'], rv[1]['op_index'])):
+        byclass.setdefault(vclass(v), (record, v, pre))
     lines, unlisted, known_hits = [], 0, []
     reported = {}
-    for cls, (record, v) in list(byclass.items())[:MAX_MINIMISED]:
+    for cls, (record, v, pre) in list(byclass.items())[:MAX_MINIMISED]:
         orig_len = len(record.get('ops', []))
-        rec2, v2, n_exec = minimise(mod, record, v)
-        path = write_replay(rec2, v2, n_exec, orig_len)
+        res = minimise(mod, record, v, pre)
+        if res is None:
+            print(f'HARNESS-ERROR violation {vsig(v)} of run {record["run"]} does not recur from pristine process state (with its chunk prelude): nondeterminism in harness or system', flush=True)
+            return 2
+        rec2, v2, prelude, n_exec = res
+        path = write_replay(rec2, v2, n_exec, orig_len, prelude)
         ok = confirm_fresh(path, v2)
         if not ok:
             print(f'HARNESS-ERROR replay of {path} did not reproduce {vsig(v2)} in a fresh interpreter', flush=True)
